@@ -26,7 +26,12 @@ DRAW = "-|+/.'"
 def check_case(ctx, case):
     rows = case['rows']
     drawing = ctx.extra['drawing']
-    r = ctx.conv(gen.text_of(rows))
+    if case.get('previous') is not None:
+        # through a CellBuffer that held (and rendered) another document before and was then edited cell by cell
+        r = ctx.conv(gen.text_of(case['previous']) + '\x1e' + gen.text_of(rows), entry=6)
+        ctx.tag('edited_buffer_conversions')
+    else:
+        r = ctx.conv(gen.text_of(rows))
     if not r.ok:
         return 'conversion failed: ' + r.fail_text()
     try:
@@ -127,6 +132,10 @@ def run_shard(ctx, shard):
         h = rng.randint(1, 5)
         pl = rng.choice([0.3, 0.5, 0.7])
         rows = [''.join(rng.choice(LAB) if rng.random() < pl else (rng.choice(DRAW) if rng.random() < 0.3 else ' ') for _ in range(w)) for _ in range(h)]
+        if i % 5 == 4:
+            prev = [''.join(rng.choice(LAB + DRAW + '  ') for _ in range(rng.randint(1, 12))) for _ in range(rng.randint(1, 5))]
+            ctx.run_case({'rows': rows, 'previous': prev})
+            continue
         ctx.run_case({'rows': rows})
         if i == 0:
             ctx.sample({'rows': rows})
